@@ -101,7 +101,24 @@ def run(chk):
         # shift distances are programmer-supplied counts: assumed < 2^62 (size + distance cannot wrap);
         # positions (set/reset/flip/test/[]) may come from the command line: full size_t range
         eng.param_max = (1 << 62) if f.short in ('operator<<', 'operator>>', 'operator<<=', 'operator>>=') else None
-        finals = eng.analyse(f)
+        def ctor_setup(e, st, func):
+            # a constructor that builds the bit vector as vector<bool>( n [, value]): the vector has n elements when
+            # the body runs
+            if not func.d.get('ctor'):
+                return
+            for ini in func.inits:
+                init = ini.get('init')
+                if ini.get('name') != 'mData' or not isinstance(init, dict):
+                    continue
+                i0 = strip_all_casts(init)
+                a = [x for x in children(i0) if not x.get('defarg')] if i0.get('k') == 'CXXConstructExpr' else []
+                if a and ('long' in (a[0].get('t') or '') or 'int' in (a[0].get('t') or '')):
+                    for v, s1 in e.ev(a[0], st, func):
+                        if isinstance(v, Lin):
+                            n_ = bitset_size(e, st, 'this')
+                            st.assume(ge(n_, v), le(n_, v))
+                        break
+        finals = eng.analyse(f, ctor_setup)
         sig = '%s(%s)%s' % (f.short, ', '.join(p['t'].replace('celma::container::', '') for p in f.params),
                             ' const' if f.d.get('const') else '')
         for o in eng.obligations[before:]:
@@ -192,6 +209,7 @@ def run(chk):
     c12_bits.run(chk, prog)
     chk.rule('R5', 'mutating operators: size and every bit of the result agree with the reference bit vector', 20)
     c12_bits.mutators(chk, prog)
+    c12_bits.from_std_bitset(chk, prog)
     chk.rule('R6', 'iteration visits exactly the set positions in order (linear-search proof of forward()/reverse())', 10)
     c12_bits.iteration_order(chk, prog)
     if eng.unsupported:
